@@ -183,6 +183,7 @@ func main() {
 		cache *recCache
 		want  [][]byte // per leaf index of this instance's log: what the default mode serves for that submission
 		blob  [][]byte // per leaf index: the chain blob its hash stands for (nil for legacy full-chain entries)
+		poisoned map[[32]byte]bool // chain hashes whose corrupted stored blob was read (and so possibly cached) once
 	}
 	var indirect []*ienv
 	for _, ck := range cacheKinds {
@@ -387,6 +388,12 @@ func main() {
 				// the cache now answers with the corrupted chain although storage has been repaired
 				fault = "cache-holds-corrupted-blob"
 			}
+			if fault == "blob-corrupted" && readIdx == idx && ie.store.lastFind != nil && !ie.store.lastFind.err {
+				if ie.poisoned == nil {
+					ie.poisoned = map[[32]byte]bool{}
+				}
+				ie.poisoned[h] = true
+			}
 			if got == "None" && ie.store.lastFind != nil {
 				if ie.store.lastFind.err {
 					got = "(Some IoErr)"
@@ -440,6 +447,196 @@ func main() {
 				Impl:   map[string]interface{}{"status": code},
 				PropOK: code == 200 && bytes.Equal(served, dExtra), Note: "legacy full-chain entry not served unchanged", Tags: []string{"serve-legacy"},
 			})
+		}
+	}
+	// ---- concurrent phase: writers and readers interleave on each external-storage instance
+	// (the cache is filled from detached goroutines; chains are shared between submissions, so
+	// de-duplication, cache fill, eviction and reads race). No faults are injected here, so every
+	// submission must be accepted and every read must be a 200 carrying what the default mode
+	// serves for that submission: the model's fix_leaf with the chain blob the hash stands for.
+	serveQuiet := func(env *ctfeenv.Env, idx int, viaProof bool) (int, []byte) {
+		if viaProof {
+			rec := env.Get(ct.GetEntryAndProofPath, fmt.Sprintf("leaf_index=%d&tree_size=%d", idx, idx+1))
+			var rsp ct.GetEntryAndProofResponse
+			if rec.Code == 200 {
+				json.Unmarshal(rec.Body.Bytes(), &rsp)
+			}
+			return rec.Code, rsp.ExtraData
+		}
+		rec := env.Get(ct.GetEntriesPath, fmt.Sprintf("start=%d&end=%d", idx, idx))
+		var rsp ct.GetEntriesResponse
+		if rec.Code == 200 {
+			json.Unmarshal(rec.Body.Bytes(), &rsp)
+			if len(rsp.Entries) == 1 {
+				return rec.Code, rsp.Entries[0].ExtraData
+			}
+		}
+		return rec.Code, nil
+	}
+	type csub struct {
+		precert bool
+		submit  [][]byte
+		leaf    []byte
+		blob    []byte
+		want    []byte
+	}
+	type cread struct {
+		idx      int
+		viaProof bool
+		code     int
+		served   []byte
+	}
+	for round := 0; round < lib.Count(3, 30); round++ {
+		root := roots[r.Intn(len(roots))]
+		var sharedInter []*pki.Entity
+		parent := root
+		for d := r.Intn(3); d > 0; d-- {
+			e := pki.Issue(pki.Opts{CN: fmt.Sprintf("conc int %d-%d", round, d), IsCA: true, KeyIdx: 1 + r.Intn(3)}, parent)
+			sharedInter = append([]*pki.Entity{e}, sharedInter...)
+			parent = e
+		}
+		var subs []csub
+		for k := 0; k < 6; k++ {
+			inter, par := sharedInter, parent
+			if r.Intn(3) == 0 { // a chain of its own
+				e := pki.Issue(pki.Opts{CN: fmt.Sprintf("conc own %d-%d", round, k), IsCA: true, KeyIdx: 1 + r.Intn(3)}, root)
+				inter, par = []*pki.Entity{e}, e
+			}
+			precert := r.Intn(2) == 0
+			o := pki.Opts{CN: fmt.Sprintf("conc-leaf-%d-%d.example", round, k), KeyIdx: 5}
+			if precert {
+				o.ExtraExt = append(o.ExtraExt, pki.PoisonExt())
+			}
+			leaf := pki.Issue(o, par)
+			submit := [][]byte{leaf.DER}
+			var rest [][]byte
+			for _, e := range inter {
+				submit = append(submit, e.DER)
+				rest = append(rest, e.DER)
+			}
+			rest = append(rest, root.DER)
+			rec := direct.AddChain(precert, submit)
+			if rec.Code != 200 {
+				panic(fmt.Sprintf("direct add-chain failed: %d %s", rec.Code, rec.Body.String()))
+			}
+			_, dServed := serve(direct, len(directLog.leaves)-1, false)
+			blob, _ := asn1Chain(rest)
+			subs = append(subs, csub{precert, submit, leaf.DER, blob, dServed})
+		}
+		byID := map[[32]byte]*csub{}
+		for i := range subs {
+			byID[sha256.Sum256(subs[i].leaf)] = &subs[i]
+		}
+		for _, ie := range indirect {
+			ie.log.mu.Lock()
+			start := len(ie.log.leaves)
+			ie.log.mu.Unlock()
+			var wg sync.WaitGroup
+			codes := make([]int, len(subs))
+			for i := range subs {
+				wg.Add(1)
+				go func(i int) {
+					defer wg.Done()
+					codes[i] = ie.env.AddChain(subs[i].precert, subs[i].submit).Code
+				}(i)
+			}
+			const readers, perReader = 4, 6
+			reads := make([][]cread, readers)
+			for g := 0; g < readers; g++ {
+				wg.Add(1)
+				gr := lib.SubRand(r)
+				go func(g int) {
+					defer wg.Done()
+					for k := 0; k < perReader; k++ {
+						ie.log.mu.Lock()
+						n := len(ie.log.leaves)
+						ie.log.mu.Unlock()
+						if n == 0 {
+							continue
+						}
+						idx := gr.Intn(n)
+						if n > start && gr.Intn(2) == 0 {
+							idx = start + gr.Intn(n-start) // prefer what is being written right now
+						}
+						cr := cread{idx: idx, viaProof: gr.Intn(2) == 0}
+						cr.code, cr.served = serveQuiet(ie.env, idx, cr.viaProof)
+						reads[g] = append(reads[g], cr)
+					}
+				}(g)
+			}
+			wg.Wait()
+			for i, c := range codes {
+				if c != 200 {
+					w.Add(lib.Case{Coq: fmt.Sprintf("CBlob %s %s", coqChain(nil), lib.Bytes(nil)), Key: fmt.Sprintf("conc-add-%d-%s-%d", round, ie.name, i),
+						Input:  map[string]interface{}{"op": "concurrent-add", "cache": ie.name},
+						Impl:   map[string]interface{}{"status": c},
+						PropOK: false, Note: fmt.Sprintf("concurrent submission without any fault answered %d (cache %s)", c, ie.name), Tags: []string{"conc-add:" + fmt.Sprint(c)}})
+				}
+			}
+			// bookkeeping for the entries the writers produced (their order is the schedule's)
+			ie.log.mu.Lock()
+			for i := start; i < len(ie.log.leaves); i++ {
+				var id [32]byte
+				copy(id[:], ie.log.leaves[i].LeafIdentityHash)
+				sb := byID[id]
+				if sb == nil {
+					panic("concurrent phase: unknown leaf identity")
+				}
+				ie.want = append(ie.want, sb.want)
+				ie.blob = append(ie.blob, sb.blob)
+			}
+			stored := make([][]byte, len(ie.log.leaves))
+			for i, l := range ie.log.leaves {
+				stored[i] = l.ExtraData
+			}
+			ie.log.mu.Unlock()
+			// one more read of every new entry once the writers are done, half of them evicted
+			var all []cread
+			for _, rs := range reads {
+				all = append(all, rs...)
+			}
+			nConc := len(all)
+			for i := start; i < len(stored); i++ {
+				ev := r.Intn(2) == 0
+				ie.cache.mu.Lock()
+				ie.cache.evicted = ev
+				ie.cache.mu.Unlock()
+				cr := cread{idx: i, viaProof: r.Intn(2) == 0}
+				cr.code, cr.served = serveQuiet(ie.env, i, cr.viaProof)
+				all = append(all, cr)
+			}
+			ie.cache.mu.Lock()
+			ie.cache.evicted = false
+			ie.cache.mu.Unlock()
+			for k, cr := range all {
+				phase := "during-writes"
+				if k >= nConc {
+					phase = "after-writes"
+				}
+				obs := "ErrStruct"
+				if cr.code == 200 {
+					obs = "Ok " + lib.Bytes(cr.served)
+				}
+				got := "None"
+				if ie.blob[cr.idx] != nil {
+					got = "(Some (IoOk " + lib.Bytes(ie.blob[cr.idx]) + "))"
+				}
+				ok, note := true, ""
+				if cr.code != 200 && ie.blob[cr.idx] != nil && ie.poisoned[sha256.Sum256(ie.blob[cr.idx])] {
+					// the cache may still hold the corrupted blob an earlier (sequential-phase) read met
+					got, phase = "(Some IoErr)", phase+":cache-holds-corrupted-blob"
+				} else if cr.code != 200 {
+					ok, note = false, fmt.Sprintf("concurrent read without any fault answered %d (cache %s, %s)", cr.code, ie.name, phase)
+				} else if !bytes.Equal(cr.served, ie.want[cr.idx]) {
+					ok, note = false, fmt.Sprintf("concurrently served extra_data differs from the default mode's (cache %s, %s)", ie.name, phase)
+				}
+				w.Add(lib.Case{
+					Coq:    fmt.Sprintf("CServe %s %s (%s)", lib.Bytes(stored[cr.idx]), got, obs),
+					Input:  map[string]interface{}{"op": "serve-concurrent", "cache": ie.name, "phase": phase, "via_entry_and_proof": cr.viaProof, "new_entry": cr.idx >= start},
+					Impl:   map[string]interface{}{"status": cr.code, "extra_len": len(cr.served)},
+					PropOK: ok, Note: note, Tags: []string{"serve-concurrent:" + ie.name + ":" + phase + fmt.Sprintf(":%d", cr.code)},
+				})
+			}
 		}
 	}
 	w.Close()
